@@ -45,6 +45,9 @@ func digestOf(v interface{}, err error) string {
 
 func execGrowth(vec J, out *Writer) {
 	switch vec["k"].(string) {
+	case "doc", "keys":
+		// the typed documents of C10 (spec/DebDocsGen.tla): here only their "remarshal" observation is judged
+		execDocs(vec, out)
 	case "colonblank":
 		// the same document with and without blanks between field names and their colons
 		read := func(b string) (bool, []interface{}) {
